@@ -103,6 +103,12 @@ class C02(Check):
             cases.append({'f': f, 'n': n, 'nv': nv, 'cols': fml.gen_trace(rng, nv, n), 'times': list(range(n)),
                           'sem': rng.choice(['output-robustness', 'input-robustness', 'output-vacuity', 'input-vacuity']),
                           'io': [rng.randrange(2) for _ in range(nv)], 'ctor': rng.choice(['combined', 'split'])})
+        # every comparison with a sample exactly on the threshold, the compared variable insensitive under every semantics (deterministic)
+        for cmp_ in ('gt', 'lt', 'geq', 'leq', 'eq', 'neq'):
+            for sem in ('output-robustness', 'input-robustness', 'output-vacuity', 'input-vacuity'):
+                for io in ([0, 0], [1, 1], [0, 1], [1, 0]):
+                    f = ('and', ('pred', cmp_, ('var', 0), ('const', 1)), ('once', ('pred', cmp_, ('var', 1), ('const', 2))))
+                    cases.append({'f': f, 'n': 4, 'nv': 2, 'cols': [[1, 0, 1, 2], [3, 2, 2, 1]], 'times': [0, 1, 2, 3], 'sem': sem, 'io': io, 'ctor': 'combined' if io[0] else 'split'})
         # specifications with named sub-specifications (a sub-formula is then reachable from several roots)
         from harness.modular import gen_modular
         for c in gen_modular(rng, tier, 120, 1500, gen_kwargs={'future': False}, base=False):
